@@ -205,6 +205,9 @@ def run_case(case):
                 tight = pdq.lstsq_constrained_gauss_newton(tol=1e-13, maxiter=40)
                 out, info = pdq.jetexpand_residual(num=num, nlstsq=tight)(residual, inits, t=t0)
                 rec["iters"] = int(info["iters"]) if "iters" in info else None
+                rec["maxiter"] = 40
+                fc = np.asarray(info["final_constraint"], dtype=np.float64) if "final_constraint" in info else np.zeros(1)
+                rec["constraint_norm"] = float(np.max(np.abs(fc))) if fc.size else 0.0
             else:
                 raise RuntimeError("harness: routine")
             rec["out"] = extract(case, out, np)
